@@ -559,7 +559,7 @@ func c02backindex(c *an.Ctx) {
 						return
 					}
 					fa, ok := st2.Addr.(*ssa.FieldAddr)
-					if !ok || an.FieldOf(fa).Name() != spec.idx {
+					if !ok || an.FName(an.FieldOf(fa)) != spec.idx {
 						return
 					}
 					sameIdx := an.SameValue(st2.Val, ia.Index)
@@ -609,7 +609,7 @@ func c02backindex(c *an.Ctx) {
 					return false
 				}
 				fa, ok := st.Addr.(*ssa.FieldAddr)
-				if !ok || an.FieldOf(fa).Name() != spec.idx {
+				if !ok || an.FName(an.FieldOf(fa)) != spec.idx {
 					return false
 				}
 				k, isC := an.ConstInt(st.Val)
